@@ -58,7 +58,7 @@ def program(x):
     if rule == "data_variant":
         bad = ["    Bad(u8)," if shape == "tuple" else "    Bad { x: u8 },"]
     elif rule == "lifetime":
-        generics = "<'a>" if shape == "lt" else "<'a, T: Default + Clone + PartialEq + core::fmt::Debug + 'a>"
+        generics = "<'a>" if shape == "lt" else "<'a, T: Default + Clone + PartialEq + ::core::fmt::Debug + 'a>"
         if fieldless or d == "EnumTable":
             ok_variants = [["    Ok1,"], ["    Ok2,"]]
         else:
